@@ -1,7 +1,7 @@
 // C16 harness: reset / reinit / reuse of CodeHolder and emitters leaves no residue.
 //
 //   lifecycle script <scripts.ndjson> <trace.ndjson>
-//       one execution per line:  {"cfg":{"arch":"x64"|"a64","static":0|1,"logk":0|1|2,"validate":0|1,"perturb":0|1,
+//       one execution per line:  {"cfg":{"arch":"x64"|"a64","static":<bytes of user-supplied arena memory, 0 = none>,"logk":0|1|2,"validate":0|1,"perturb":0|1,
 //                                        "kinds":["asm","builder","compiler"]},
 //                                 "ops":[["Init",h],["ResetH",h,hard],["Reinit",h],["Attach",e,h],["Detach",e,h],
 //                                        ["HLog",h,on],["ELog",e,on],["HEh",h,on],["EEh",e,on],["Gen",e,p],["Seal",h],["Fail",e],
@@ -29,9 +29,10 @@ enum Kind { kAsm = 0, kBuilder = 1, kCompiler = 2 };
 static const char* kind_name(int k) { return k < 0 ? "seal" : k == kAsm ? "asm" : k == kBuilder ? "builder" : "compiler"; }
 static int kind_of(const std::string& s) { return s == "asm" ? kAsm : s == "builder" ? kBuilder : kCompiler; }
 
-static const int NPROG = 6;
-// minimal emitter kind each program needs (P1,P2 any emitter; P3 builder-level node edits; P4..P6 compiler)
-static int prog_rank(int p) { return p <= 2 ? kAsm : p == 3 ? kBuilder : kCompiler; }
+static const int NPROG = 8;
+// minimal emitter kind each program needs (P1,P2,P7 any emitter; P3 builder-level node edits; P4..P6 compiler;
+// P8 = unfinished emission (cursor in the middle / open function, NO finalize): Builder or Compiler)
+static int prog_rank(int p) { return (p <= 2 || p == 7) ? kAsm : (p == 3 || p == 8) ? kBuilder : kCompiler; }
 
 struct ErrAcc {
   Error first = Error::kOk;
@@ -511,10 +512,90 @@ static void a64_p6(BaseEmitter* em, CodeHolder&, unsigned k, ErrAcc& E, int part
   if (part == 0 || part == 3) a64_func_spill(cc, k + 2, E, nullptr, &first, ConstPoolScope::kLocal, &shared);
 }
 
-static void emit_program(Arch arch, BaseEmitter* em, CodeHolder& code, int prog, ErrAcc& E, int part = 0, Label* first = nullptr) {
+// P7: emits code, then moves to a user section and STAYS there - the emitter's current section at the time of the next
+// reset / reinit / detach is not .text.  Unlike the other programs it does not blindly start with section(.text): an
+// Assembler is moved to the end of .text only when its current section really is a section of this holder (pointer
+// identity, nothing is dereferenced; other emitters may have appended meanwhile).  An Assembler that was just attached
+// or reinitialised is in .text by contract; a section pointer that is NOT one of the holder's sections (left over from
+// before a reinit) is used as it is, exactly as user code emitting right after reinit() would.
+static void p7_stay(Arch arch, BaseEmitter* em, int kind, CodeHolder& code, unsigned k, ErrAcc& E) {
+  if (kind == kAsm) {
+    BaseAssembler* a = static_cast<BaseAssembler*>(em);
+    for (Section* s : code.sections()) if (s == a->_section) { E(a->section(code.text_section())); break; }
+  }
+  if (arch == Arch::kX64) {
+    x86::Emitter* x = em->as<x86::Emitter>();
+    E(x->mov(x86::eax, 0x700 + k));
+    E(x->add(x86::eax, x86::edx));
+  }
+  else {
+    a64::Emitter* a = em->as<a64::Emitter>();
+    E(a->mov(a64::w0, 0x700 + k));
+    E(a->add(a64::w0, a64::w0, a64::w1));
+  }
+  Section* user = get_or_new_section(code, ".stay", 4, 3, E);
+  if (user) {
+    E(em->section(user));
+    uint32_t vals[2] = {0x57A757A7u, k};
+    E(em->embed_data_array(TypeId::kUInt32, vals, 2, 1));
+  }
+}
+
+// P8: unfinished emission.  Builder: nodes + a label, cursor moved into the middle.  Compiler: an OPEN function (no
+// end_func) with virtual registers, a stack slot and a local constant.  Never finalized.
+static void p8_open(Arch arch, BaseEmitter* em, int kind, CodeHolder& code, unsigned k, ErrAcc& E) {
+  BaseBuilder* b = static_cast<BaseBuilder*>(em);
+  if (arch == Arch::kX64) {
+    if (kind == kCompiler) {
+      x86::Compiler& cc = *static_cast<x86::Compiler*>(em);
+      FuncNode* fn = cc.add_func(FuncSignature::build<uint32_t, uint32_t>());
+      if (!fn) { E(Error::kOutOfMemory); return; }
+      x86::Gp v0 = cc.new_gp32("o0"), v1 = cc.new_gp32("o1");
+      fn->set_arg(0, v0);
+      x86::Mem c0 = cc.new_int32_const(ConstPoolScope::kLocal, int32_t(80 + k));
+      x86::Mem st = cc.new_stack(16, 4, "ost");
+      E(cc.mov(v1, c0));
+      E(cc.add(v0, v1));
+      (void)st;
+    }
+    x86::Emitter* x = em->as<x86::Emitter>();
+    E(x->mov(x86::ecx, 8 + k)); BaseNode* mid = b->cursor();
+    Label l = em->new_label();
+    E(em->bind(l));
+    E(x->dec(x86::ecx));
+    E(x->jnz(l));
+    b->set_cursor(mid);
+  }
+  else {
+    if (kind == kCompiler) {
+      a64::Compiler& cc = *static_cast<a64::Compiler*>(em);
+      FuncNode* fn = cc.add_func(FuncSignature::build<uint32_t, uint32_t>());
+      if (!fn) { E(Error::kOutOfMemory); return; }
+      a64::Gp v0 = cc.new_gp32("o0"), v1 = cc.new_gp32("o1");
+      fn->set_arg(0, v0);
+      a64::Mem c0 = cc.new_int32_const(ConstPoolScope::kLocal, int32_t(80 + k));
+      a64::Mem st = cc.new_stack(16, 4, "ost");
+      E(cc.ldr(v1, c0));
+      E(cc.add(v0, v0, v1));
+      (void)st;
+    }
+    a64::Emitter* a = em->as<a64::Emitter>();
+    E(a->mov(a64::w9, 8 + k)); BaseNode* mid = b->cursor();
+    Label l = em->new_label();
+    E(em->bind(l));
+    E(a->subs(a64::w9, a64::w9, 1));
+    E(a->b_ne(l));
+    b->set_cursor(mid);
+  }
+  (void)code;
+}
+
+static void emit_program(Arch arch, BaseEmitter* em, int kind, CodeHolder& code, int prog, ErrAcc& E, int part = 0, Label* first = nullptr) {
   unsigned k = unsigned(prog);
   Label first_local;
   if (!first) first = &first_local;
+  if (prog == 7) { p7_stay(arch, em, kind, code, k, E); return; }
+  if (prog == 8) { p8_open(arch, em, kind, code, k, E); return; }
   if (arch == Arch::kX64) {
     switch (prog) {
       case 1: x86_p1(em, code, k, E); break;
@@ -543,8 +624,8 @@ static const uint64_t kBase = 0x00007F1000000000ull;
 static int g_last_err_idx = -1;
 static Error generate(Arch arch, BaseEmitter* em, int kind, CodeHolder& code, int prog) {
   ErrAcc E;
-  emit_program(arch, em, code, prog, E);
-  if (kind != kAsm) E(em->finalize());
+  emit_program(arch, em, kind, code, prog, E);
+  if (kind != kAsm && prog != 8) E(em->finalize());
   g_last_err_idx = E.idx;
   return E.first;
 }
@@ -681,7 +762,7 @@ static std::string first_diff(const char* what, const std::string& a, const std:
 // =========================================================================================================
 struct Cfg {
   Arch arch = Arch::kX64;
-  bool static_arena = false;
+  size_t static_arena = 0;      // bytes of user-supplied arena memory per holder (0 = none)
   int logk = 1;            // kind of logger objects: 1 StringLogger, 2 FileLogger(/dev/null)
   bool validate = false;
   bool perturb = false;
@@ -712,6 +793,7 @@ static void priv_of(BaseEmitter* e, int kind, std::vector<long long>& out) {
     BaseAssembler* a = static_cast<BaseAssembler*>(e);
     out.push_back(a->_section ? (long long)a->_section->section_id() : -1);
     out.push_back(!a->code() && (a->_buffer_data || a->_buffer_ptr || a->_buffer_end) ? 1 : 0);   // stale pointers after detach
+    out.push_back(a->code() ? (long long)a->offset() : 0);                                          // cursor (compared only while the holder is empty)
     return;
   }
   BaseBuilder* b = static_cast<BaseBuilder*>(e);
@@ -752,7 +834,6 @@ struct Fresh {            // measured on fresh objects at the start of the execu
   std::vector<long long> e_detached[3], e_attached[3];
 };
 
-static uint8_t g_static_mem[2][24 * 1024];
 
 struct Exec {
   FILE* out;
@@ -760,6 +841,7 @@ struct Exec {
   vj::Rng rng;
   static const int NH = 2;
   CodeHolder* holder[NH] = {nullptr, nullptr};
+  uint8_t* static_mem[NH] = {nullptr, nullptr};
   std::vector<BaseEmitter*> em;
   std::vector<Logger*> hlog, elog;
   std::vector<RecEH*> heh, eeh;
@@ -780,8 +862,10 @@ struct Exec {
     devnull = fopen("/dev/null", "w");
     for (int h = 0; h < NH; h++) {
       if (cfg.static_arena) {
-        memset(g_static_mem[h], 0xA5 ^ (h * 0x33), sizeof g_static_mem[h]);      // user memory is not zero
-        holder[h] = new CodeHolder(Span<uint8_t>(g_static_mem[h], sizeof g_static_mem[h]));
+        // user memory (heap allocated, so the sanitizer build sees any access beyond it) that is not zero
+        static_mem[h] = static_cast<uint8_t*>(malloc(cfg.static_arena));
+        memset(static_mem[h], 0xA5 ^ (h * 0x33), cfg.static_arena);
+        holder[h] = new CodeHolder(Span<uint8_t>(static_mem[h], cfg.static_arena));
       }
       else holder[h] = new CodeHolder();
       hlog.push_back(make_logger());
@@ -795,7 +879,7 @@ struct Exec {
     }
     measure_fresh();
     w.beginObj().kv("e", "Reset");
-    w.key("cfg").beginObj().kv("arch", cfg.arch == Arch::kX64 ? "x64" : "a64").kv("archid", int(cfg.arch)).kv("static", cfg.static_arena).kv("logk", cfg.logk)
+    w.key("cfg").beginObj().kv("arch", cfg.arch == Arch::kX64 ? "x64" : "a64").kv("archid", int(cfg.arch)).kv("static", (long long)cfg.static_arena).kv("logk", cfg.logk)
       .kv("validate", cfg.validate).kv("perturb", cfg.perturb).kv("base", cfg.base).endObj();
     w.key("kinds").beginArr();
     for (int k : cfg.kinds) w.val(kind_name(k));
@@ -822,6 +906,7 @@ struct Exec {
     for (auto* x : heh) delete x;
     for (auto* x : eeh) delete x;
     for (void* p : junk) free(p);
+    for (int h = 0; h < NH; h++) free(static_mem[h]);
     fclose(devnull);
   }
 
@@ -847,7 +932,8 @@ struct Exec {
     static const size_t sizes[] = {24, 72, 200, 1000, 4096, 8192 - 64, 16384, 16384 + 64, 32768, 65536, 65536 + 128, 131072};
     unsigned n = 1 + unsigned(rng.below(4));
     for (unsigned i = 0; i < n; i++) {
-      size_t sz = sizes[rng.below(sizeof sizes / sizeof sizes[0])] + rng.below(64);
+      static const size_t block_sizes[] = {16384 - 32, 32768 - 32, 65536 - 32, 8192 - 32};      // what Arena / CodeBuffer malloc
+      size_t sz = rng.chance(1, 3) ? block_sizes[rng.below(4)] : sizes[rng.below(sizeof sizes / sizeof sizes[0])] + rng.below(64);
       void* p = malloc(sz);
       if (!p) continue;
       memset(p, int(0x5A + rng.below(100)), sz);
@@ -976,7 +1062,7 @@ struct Exec {
         for (int part = 1; part <= 3; part++) {
           BaseEmitter* e = new_emitter(cfg.arch, kCompiler, false);
           E(c.attach(e));
-          emit_program(cfg.arch, e, c, 6, E, part, &first);
+          emit_program(cfg.arch, e, kCompiler, c, 6, E, part, &first);
           E(e->finalize());
           delete e;
         }
@@ -1056,7 +1142,7 @@ struct Exec {
 static Cfg cfg_of(const vj::Value& v) {
   Cfg c;
   c.arch = v["arch"].s() == "a64" ? Arch::kAArch64 : Arch::kX64;
-  c.static_arena = v["static"].i() != 0;
+  c.static_arena = size_t(v["static"].i()) == 1 ? 24576 : size_t(v["static"].i());
   c.logk = v.has("logk") ? int(v["logk"].i()) : 1;
   c.validate = v["validate"].i() != 0;
   c.perturb = v["perturb"].i() != 0;
@@ -1184,7 +1270,7 @@ int main(int argc, char** argv) {
       vj::Rng r(vj::env_seed() * 7919ull + i);
       Cfg c;
       c.arch = r.chance(1, 3) ? Arch::kAArch64 : Arch::kX64;
-      c.static_arena = r.chance(1, 2);
+      { static const size_t ss[] = {0, 0, 256, 1024, 4096, 24576}; c.static_arena = ss[r.below(6)]; }
       c.logk = 1 + int(r.below(2));
       c.validate = r.chance(1, 2);
       c.perturb = r.chance(1, 2);
